@@ -342,6 +342,14 @@ func runCheck(o checkOpts) *checkResult {
 			"position": ob.Pos, "encoding": ob.Mode.String(), "solver_status": ob.Status, "solver_answers": ob.Answers,
 			"solver_output": truncate(ob.Model, 20000), "goal": truncate(ob.Goal, 4000),
 		}
+		if ob.Status == "sat" {
+			// the solver's values for the scalar symbols (parameters p.*, results ret.*, ghost and field reads)
+			sc := scalarModel(ob.Model)
+			if len(sc) > 400 {
+				sc = sc[:400]
+			}
+			rp["model_scalars"] = sc
+		}
 		replayed, note := tryReplay(w, o, ob, rp)
 		rp["replay"] = note
 		data, _ := json.MarshalIndent(rp, "", " ")
@@ -398,6 +406,8 @@ func runCheck(o checkOpts) *checkResult {
 			"functions_under_contract": fsums,
 			"by_backend":               byBackend, "by_encoding": byMode, "by_stage": byStage,
 			"solver_time_s": round3(solverTime), "generation_time_s": round3(genS), "solve_wall_s": round3(solveS),
+			"replay": "a failing obligation of a plain-data function is replayed: model -> inputs -> run of the real function (go test -overlay) -> the contract alone evaluated on (inputs, observed outputs); other violations are reported with no-failing-input-found (DESIGN.md 12.5)",
+			"package_functions_without_contract": w.uncovered(),
 			"vacuity_guards": map[string]interface{}{"return_reachability_queries": len(reachObls), "reachable": reachSat, "dead_returns": reachDead},
 			"relies_on_contracts_proved_under_their_own_tags": sortedKeys(relies),
 			"inlined_callees": sortedKeys(inlined), "lemmas": len(lemmas),
